@@ -66,9 +66,9 @@ func timeUp() bool { return time.Now().After(deadline) }
 func main() {
 	run = vlib.NewRun("C19", "model_checking")
 	relicx.Quiet()
-	budget := 150 * time.Second
+	budget := 20 * time.Minute // a safety net far above the normal cost (about 60 s on an idle machine)
 	if run.Thorough() {
-		budget = 25 * time.Minute
+		budget = 90 * time.Minute
 	}
 	if v := os.Getenv("C19_BUDGET_S"); v != "" {
 		var s int
@@ -154,7 +154,7 @@ func main() {
 	}
 	run.Set("bounds", map[string]any{
 		"general_family":  "trees of depth <=3: all 13 shapes with <=2 children per node + the 3-children root; per element: name prefix {none,p,q} x declaration menu (none, xmlns=d, p=z, p=z+q=a, p=a [rebinding / one URI under two prefixes], xmlns=\"\", q=a, q=a+p=z [written order], xmlns=e, xmlns=d+p=z; p->urn:z q->urn:a so prefix order != URI order) x attribute menu; attribute-order family: ordered selections of 0..3 (thorough 4) of {a,b,p:a,p:b,q:a,q:c,xml:lang,xml:space} x 5 bindings x declared at {parent,self}; attribute values: sequences of <=2 of 27 pieces x quote style; text: sequences of <=2 (thorough 3) of 26 pieces (entities, char refs, CDATA forms, ]]>, CR, white space, child, comment, PI); prolog(10) x body form(15) x epilog(5); every element of every document is an apex; both declared algorithms; menu sizes per shape are in partA_families[].family",
-		"signed_classes":  "ClickOnce manifest fixture x every single edit of every kind + qualified attribute pairs over the fixture's own 7 prefixes on every element + escapable characters at one attribute and one text site + scope forests (one binding - the unknown prefix c19p or the default namespace - declared where it is not used, on the root or on a new group element, reaching every ordered sequence of 1..2 (thorough 3) sibling items; item = leaf {element in the namespace, attribute in it, re-declaration to another name, re-declaration to the same name} standing below 0..1 (thorough 2) elements that neither use nor declare it; at the root the items are the first or the last children; the leaf that un-declares the default namespace, xmlns=\"\", only with C19_SCOPE_UNDECLARE=1), each signed by the real pipeline; VSIX: fixture x 4 keys x 4 digests + generated packages over 11 member names x 6 content types x ordered name pairs; AppX manifest fixture x every single edit",
+		"signed_classes":  "ClickOnce manifest fixture x every single edit of every kind + qualified attribute pairs over the fixture's own 7 prefixes on every element + escapable characters at one attribute and one text site + scope forests (one binding - the unknown prefix c19p or the default namespace - declared where it is not used, on the root or on a new group element, reaching every ordered sequence of 1..2 (thorough 3) sibling items; item = leaf {element in the namespace, attribute in it, re-declaration to another name, re-declaration to the same name, un-declaration of the default namespace (xmlns=\"\")} standing below 0..1 (thorough 2) elements that neither use nor declare it; at the root the items are the first or the last children), each signed by the real pipeline; VSIX: fixture x 4 keys x 4 digests + generated packages over 11 member names x 6 content types x ordered name pairs; AppX manifest fixture x every single edit",
 		"metamorphic":     "signed fixture manifest and VSIX signature part x {rsaA,p256A} x digests (quick 2 combos each, thorough 6 each) x every single edit of every kind at every applicable site (attribute permutations: all for <=3 attributes, else every adjacent swap + reversal + rotation)",
 		"signature_width": "P-256/P-384/P-521 x (|r|,|s|) in {full, top byte zero, two top bytes zero}^2 x {enveloped, enveloping}; RSA-2048 until two signatures with a zero top byte",
 		"identity":        "6 fixture keys x {leaf-first, leaf-last chain} + leaf-only + self-signed + 22 generated subjects + 2 issuers with unusual key identifiers + 2 RSA keys chosen by token class (first hex digit zero; first octet zero), x 3 manifest inputs; token function: modulus length {1024,2048,3072,4096} x e {3,65537} x modulus 2^(bits-1)+2k+1, k<2048 (16384 public keys; tallies per token class in partD_token_function_family)",
